@@ -18,9 +18,23 @@ def _indices(out, name):
 
 
 def extra(ctx):
-    gen = os.path.join(ctx.COQ, "Gen", "routes.json")
-    if not os.path.exists(gen):
-        ctx.fail("translator", "coq/Gen/routes.json is missing: the route translator did not run")
+    # coq/Gen is shared with every other run in this tree (other properties,
+    # runs against a scratch worktree or an overlay) and the "gen" lock is
+    # released once the theorems are built: the table this hook names entries
+    # of is extracted once more, into the work directory of this run.
+    priv = os.path.join(ctx.workdir, "gen")
+    pgen = os.path.join(priv, "coq", "Gen")
+    os.makedirs(pgen, exist_ok=True)
+    env = ctx.go_env()
+    env.update({"VERIF_REPO": ctx.REPO, "VERIF_DIR": priv})
+    rc, out = ctx.run([os.path.join(ctx.VERIF, "tools", "bin", "routes")], cwd=ctx.VERIF, env=env, timeout=600)
+    gen = os.path.join(pgen, "routes.json")
+    if rc != 0 or not os.path.exists(gen):
+        ctx.fail("translator", "the route translator failed in the hook: " + " ".join(out.split())[-300:])
+        return
+    rc, out = ctx.run(["coqc", "-Q", ctx.COQ, "AGH", "-Q", pgen, "C11Priv", "-w", "none", os.path.join(pgen, "Routes.v")], cwd=pgen, timeout=600)
+    if rc != 0:
+        ctx.fail("proof", "the extracted route table does not compile: " + " ".join(out.split())[:300], detail=out[-2000:])
         return
     tab = json.load(open(gen))
     routes = tab["routes"]
@@ -39,7 +53,7 @@ def extra(ctx):
 
     src = os.path.join(ctx.workdir, "c11_offending.v")
     with open(src, "w") as f:
-        f.write("From AGH Require Import Base.Run Model.AuthHttp Proofs.AuthHttp Gen.Routes.\n"
+        f.write("From AGH Require Import Base.Run Model.AuthHttp Proofs.AuthHttp.\nFrom C11Priv Require Import Routes.\n"
                 "Definition idx {A} (ok : A -> bool) (l : list A) : list nat :=\n"
                 "  map fst (List.filter (fun p => negb (ok (snd p))) (combine (seq 0 (length l)) l)).\n"
                 "Definition OR := Eval vm_compute in idx (route_ok reg_empty reg_method) routes.\nPrint OR.\n"
@@ -52,7 +66,7 @@ def extra(ctx):
                 "Definition OC := Eval vm_compute in idx route_method_ok routes.\nPrint OC.\n"
                 "From AGH Require Import Model.AuthLife Proofs.AuthLife.\n"
                 "Definition OA := Eval vm_compute in idx (route_after_setup_ok reg_method) routes.\nPrint OA.\n")
-    rc, out = ctx.run(["coqc", "-Q", ctx.COQ, "AGH", "-w", "none", src], cwd=ctx.workdir, timeout=600)
+    rc, out = ctx.run(["coqc", "-Q", ctx.COQ, "AGH", "-Q", pgen, "C11Priv", "-w", "none", src], cwd=ctx.workdir, timeout=600)
     if rc != 0:
         ctx.fail("proof", "the route table could not be evaluated: " + " ".join(out.split())[:300], detail=out[-2000:])
         return
